@@ -59,7 +59,8 @@ pub fn install(property: &str, verif_dir: &str) {
                 "coverage": {"explanation": format!("run aborted by a non-unwinding panic inside the library: {msg}; case {crumb}")},
                 "wall_s": 0.0, "violations": 1
             });
-            let _ = std::fs::write(format!("{dir}/evidence/{prop}.json"), serde_json::to_string_pretty(&ev).unwrap());
+            let edir = std::env::var("VERIF_EVIDENCE_DIR").unwrap_or_else(|_| format!("{dir}/evidence"));
+            let _ = std::fs::write(format!("{edir}/{prop}.json"), serde_json::to_string_pretty(&ev).unwrap());
             println!("library abort: {msg}\n  while working on: {crumb}");
             println!("VIOLATION property={prop} replay={path}");
             use std::io::Write;
